@@ -23,7 +23,7 @@ use vmodel::*;
 pub fn spec() -> PropSpec {
     PropSpec {
         id: "C15",
-        rule: "cases: for each operation family and each width N in {1,2,3,4,8,16,32,64} limbs one generated operand tuple (the generators of the corresponding exactness property: edge shapes K/P/L/R/T/U/Z and related pairs; carry-boundary pairs a+b = 2^B-1, 2^B, 2^B+1; division pairs n = q*d + r with r in {0,1,d-1,rand}, Knuth 3-by-2 overestimate divisors, single-limb / normalised / 2^k(+-1) divisors, dividend ~ divisor; shift amounts biased to 0, multiples of 64 +-1, BITS-1, BITS, 2*BITS, u32::MAX; perfect squares t^2, t^2+-1; odd-modulus classes, even s*2^k moduli, residues {0,1,m-1,m/2,random}, special moduli 2^B-c incl. c = MAX; gcd pairs with a common factor and powers of two; k in 0..=BITS and k > BITS for inversion mod 2^k; exponent windows) is fed to EVERY route of the operation: inherent ct method, `_vartime` variant, trait method (Integer, Checked*, Wrapping*, DivRemLimb, RemLimb, DivVartime, RemMixed, ShlVartime/ShrVartime, BitOps, Gcd, InvMod, Inverter/PrecomputeInverter, SquareRoot, Monty, MontyMultiplier, Square*, Pow*, Invert, Retrieve, Encoding, ArrayEncoding/ArrayDecoding, RandomMod, RandomBits, ConstantTimeSelect, subtle comparisons), operators by value / by reference / assigning (u32, i32, usize shift operands; Uint and primitive right operands for BoxedUint), the Wrapping and Checked wrappers, Reciprocal::new + *_with_reciprocal, precomputed inverters (reused on a second value), MontyParams::new vs new_vartime vs Monty::new_params_vartime vs impl_modulus!, each on Uint<N> AND on BoxedUint of 64*N bits (results compared as limb vectors including their length = precision), plus Int<N> and Limb forms, mixed-precision boxed forms (mul 33x36/32x35/36x33 limbs, div_rem_vartime, cmp across precisions, mul operators), boxed constructors with documented precision rounding, and 400+ expressions evaluated by rustc's CTFE in `const` items (operands fixed by a build-time seed) versus the same expression at run time on black_box'ed operands. Verdict per route: outcome (panic class / is_some / value / precision) equals the outcome of the family's reference route (Uint::adc, sbb, split_mul, div_rem, div_rem_limb, overflowing_shl/shr, inherent bit queries, Ord::cmp, add_mod..., inv_mod, inv_odd_mod, inv_mod2k, gcd, sqrt, MontyForm inherent methods, from_be_slice, to_be_bytes, to_string_radix_vartime, RandomMod on the same ChaCha8 stream incl. the next word of the stream). non-trivial: the rule of the underlying exactness property — add/sub/cmp/bit ops: both operands have >= 2 significant bits (non-zero, not equal for bit ops); mul: additionally the product overflows the width or needs > 1 limb; div: divisor >= 2 bits and dividend > divisor; div by limb: dividend > 1 limb (one-limb type: dividend > divisor) and divisor >= 2; shifts: value non-zero and shift >= 1; bit queries: value neither 0 nor MAX; modular: modulus >= 2 bits and operands non-zero (mul_mod: product >= modulus); inversion: gcd != 1 or even modulus or a >= m; inv mod 2^k: k >= 1; gcd: gcd != 1; sqrt: >= 3 bits; Montgomery: modulus >= 3 bits, values non-zero; encoding: neither 0 nor all-ones; radix: > 64 bits (one-limb type: > 32 bits); random: modulus >= 2 bits; precision: requested bits or growth not a multiple of 64; mixed precision: precisions differ and operands non-zero; const cases: always (each is a fixed non-degenerate expression). distinct by the recorded operands (limbs, shift / k / radix / seed / const-case index).",
+        rule: "cases: for each operation family and each width N in {1,2,3,4,8,16,32,64} limbs one generated operand tuple (the generators of the corresponding exactness property: edge shapes K/P/L/R/T/U/Z and related pairs; carry-boundary pairs a+b = 2^B-1, 2^B, 2^B+1; division pairs n = q*d + r with r in {0,1,d-1,rand}, Knuth 3-by-2 overestimate divisors, single-limb / normalised / 2^k(+-1) divisors, dividend ~ divisor; shift amounts biased to 0, multiples of 64 +-1, BITS-1, BITS, 2*BITS, u32::MAX; perfect squares t^2, t^2+-1; odd-modulus classes, even s*2^k moduli, residues {0,1,m-1,m/2,random}, special moduli 2^B-c incl. c = MAX; gcd pairs with a common factor and powers of two; k in 0..=BITS and k > BITS for inversion mod 2^k; exponent windows) is fed to EVERY route of the operation: inherent ct method, `_vartime` variant, trait method (Integer, Checked*, Wrapping*, DivRemLimb, RemLimb, DivVartime, RemMixed, ShlVartime/ShrVartime, BitOps, Gcd, InvMod, Inverter/PrecomputeInverter, SquareRoot, Monty, MontyMultiplier, Square*, Pow*, Invert, Retrieve, Encoding, ArrayEncoding/ArrayDecoding, RandomMod, RandomBits, ConstantTimeSelect, subtle comparisons), operators by value / by reference / assigning (u32, i32, usize shift operands; Uint and primitive right operands for BoxedUint), the Wrapping and Checked wrappers, Reciprocal::new + *_with_reciprocal, precomputed inverters (reused on a second value), MontyParams::new vs new_vartime vs Monty::new_params_vartime vs impl_modulus!, each on Uint<N> AND on BoxedUint of 64*N bits (results compared as limb vectors including their length = precision), plus Int<N> and Limb forms, mixed-precision boxed forms (mul 33x36/32x35/36x33 limbs, div_rem_vartime, cmp across precisions, mul operators), boxed constructors with documented precision rounding, and 400+ expressions evaluated by rustc's CTFE in `const` items (operands fixed by a build-time seed) versus the same expression at run time on black_box'ed operands. Verdict per route: outcome (panic class / is_some / value / precision) equals the outcome of the family's reference route (Uint::adc, sbb, split_mul, div_rem, div_rem_limb, overflowing_shl/shr, inherent bit queries, Ord::cmp, add_mod..., inv_mod, inv_odd_mod, inv_mod2k, gcd, sqrt, MontyForm inherent methods, from_be_slice, to_be_bytes, to_string_radix_vartime, RandomMod on the same ChaCha8 stream incl. the next word of the stream). non-trivial: the rule of the underlying exactness property — add/sub/cmp/bit ops: both operands have >= 2 significant bits (non-zero, not equal for bit ops); mul: additionally the product overflows the width or needs > 1 limb; div: divisor >= 2 bits and dividend > divisor; div by limb: dividend > 1 limb (one-limb type: dividend > divisor) and divisor >= 2; shifts: value non-zero and shift >= 1; bit queries: value neither 0 nor MAX; modular: modulus >= 2 bits and operands non-zero (mul_mod: product >= modulus); inversion: gcd != 1 or even modulus or a >= m; inv mod 2^k: k >= 1; gcd: gcd != 1; sqrt: >= 3 bits; Montgomery: modulus >= 3 bits, values non-zero; encoding: neither 0 nor all-ones; radix: > 64 bits (one-limb type: > 32 bits); random: modulus >= 2 bits; precision: requested bits or growth not a multiple of 64; mixed precision: precisions differ and operands non-zero; const cases: always (each is a fixed non-degenerate expression). distinct by the recorded operands (limbs, shift / k / radix / seed / const-case index). Since seeding round 4: one monty case in eight uses a tuple on which the boxed ladder ends >= 2m (model search) or on exactly 0 / m / 2m (late zero), from c09::model.",
         assumptions: vec![
             "the reference route of each family is not itself a verdict on exactness (that is C02-C10, C13, C14, C20): a defect shared by all routes of an operation is invisible here by design".into(),
             "num-bigint is used only to construct in-domain inputs and to classify cases; bridging uses from_words/as_words only".into(),
